@@ -201,6 +201,10 @@ GlobPatterns ==
     \* (not after a literal directory part: a meta-free pattern is an Lstat of the path, and avfs reads paths in
     \* their Clean() form by the convention of C01)
     \cup {AbsP(<<"w", s1, x>>) : s1 \in {"*", "?"}, x \in {"", ".", ".."}}
+    \* malformed patterns: rejected when the matcher reaches the malformed chunk
+    \cup {AbsP(<<"w", "*", "[a", "*">>), AbsP(<<"w", "?", "[a">>), AbsP(<<"*", "[">>)}
+    \cup {AbsP(<<"w", x>>) : x \in BadSegs} \cup {AbsP(<<"w", "*", x>>) : x \in BadSegs} \cup {AbsP(<<"w", x, "*">>) : x \in BadSegs}
+    \cup {AbsP(<<"c", "c", x>>) : x \in BadSegs} \cup {RelP(<<x>>) : x \in BadSegs}
 EnumCalls ==
     {[C0 EXCEPT !.op = "glob", !.p = p] : p \in GlobPatterns}
     \cup {[C0 EXCEPT !.op = "walk", !.p = p, !.n = k, !.flag = <<a>>] : p \in {WorkP, RootP} \cup {AbsP(x) : x \in P1},
